@@ -254,6 +254,45 @@ fn step(st: &mut St, t: &[&str]) -> Option<String> {
             st.hs.get_mut(*r)?.update(&d);
             ok
         }
+        ["H", "updwv", r, lens, rest @ ..] => {
+            // io::Write::write_vectored with slices of the given lengths (comma separated; what is left of the data forms a last
+            // slice), called again with the unconsumed rest until everything is accepted; prints the number of bytes accepted
+            let (d, n) = parse_data(rest)?;
+            if n != rest.len() {
+                return None;
+            }
+            let lens: Vec<usize> = lens.split(',').map(|x| x.parse().ok()).collect::<Option<Vec<_>>>()?;
+            let mut parts: Vec<&[u8]> = Vec::new();
+            let mut off = 0usize;
+            for l in lens {
+                let l = l.min(d.len() - off);
+                parts.push(&d[off..off + l]);
+                off += l;
+            }
+            if off < d.len() {
+                parts.push(&d[off..]);
+            }
+            let h = st.hs.get_mut(*r)?;
+            let mut accepted = 0usize;
+            let mut rounds = 0usize;
+            while parts.iter().any(|p| !p.is_empty()) {
+                let ios: Vec<std::io::IoSlice> = parts.iter().map(|p| std::io::IoSlice::new(p)).collect();
+                let mut k = h.write_vectored(&ios).ok()?;
+                let remaining: usize = parts.iter().map(|p| p.len()).sum();
+                rounds += 1;
+                if k == 0 || k > remaining || rounds > 100000 {
+                    return Some(format!("err:accepted {} of {} in call {}", k, remaining, rounds));
+                }
+                accepted += k;
+                for p in parts.iter_mut() {
+                    let c = k.min(p.len());
+                    *p = &p[c..];
+                    k -= c;
+                }
+            }
+            h.flush().ok()?;
+            Some(format!("ok {}", accepted))
+        }
         ["H", "updw", r, rest @ ..] => {
             let (d, _) = parse_data(rest)?;
             let n = st.hs.get_mut(*r)?.write(&d).ok()?;
@@ -577,15 +616,69 @@ fn step(st: &mut St, t: &[&str]) -> Option<String> {
         }
         // the same with objects built by one non-inlined constructor called with different secrets, so that
         // whatever the padding bytes happen to contain is the same in every object unless it is secret-derived
-        ["D", "zeroscan", kind, len, extra] => {
+        ["D", "zeroscan", kind, len, extra, rest @ ..] => {
             let len: usize = len.parse().ok()?;
             let extra: usize = extra.parse().ok()?;
-            let snaps: Vec<(Vec<u8>, Vec<u8>)> = (1..=4u64).map(|seed| zero_snap(kind, len, extra, seed)).collect::<Option<Vec<_>>>()?;
+            // optional mode (default keyed): in `hash` mode the secret is the input itself, in `derive` mode the context too
+            let mode = match rest {
+                [] => "keyed",
+                [m] if ["hash", "keyed", "derive"].contains(m) => *m,
+                _ => return None,
+            };
+            let snaps: Vec<(Vec<u8>, Vec<u8>)> = (1..=4u64).map(|seed| zero_snap(kind, mode, len, extra, seed)).collect::<Option<Vec<_>>>()?;
             let n = snaps[0].0.len();
             let secret: Vec<usize> = (0..n).filter(|i| snaps.iter().any(|s| s.0[*i] != snaps[0].0[*i])).collect();
             let left = secret.iter().filter(|i| snaps.iter().any(|s| s.1[**i] != 0)).count();
             let nonzero_after = (0..n).filter(|i| snaps.iter().any(|s| s.1[*i] != 0)).count();
             Some(format!("{} {} {} {}", n, secret.len(), left, nonzero_after))
+        }
+        // `jobs` independent hashers, each hashing the file with update_mmap_rayon, all started from worker threads of ONE rayon
+        // pool of `threads` threads (a worker waiting in a join may pick up another hasher's job), with a deadline:
+        // `ok <hex>` if all finish with the same digest, `MISMATCH ...` if they differ, `HANG <finished>/<jobs>` otherwise
+        ["D", "poolmmap", threads, jobs, path] => {
+            let threads: usize = threads.parse().ok()?;
+            let jobs: usize = jobs.parse().ok()?;
+            let path = path.to_string();
+            let (tx, rx) = std::sync::mpsc::channel::<Result<[u8; 32], String>>();
+            std::thread::spawn(move || {
+                let pool = match rayon_core::ThreadPoolBuilder::new().num_threads(threads).build() {
+                    Ok(p) => p,
+                    Err(_) => return,
+                };
+                pool.scope(|sc| {
+                    for _ in 0..jobs {
+                        let tx = tx.clone();
+                        let path = path.clone();
+                        sc.spawn(move |_| {
+                            let mut h = blake3::Hasher::new();
+                            let r = match h.update_mmap_rayon(&path) {
+                                Ok(_) => Ok(*h.finalize().as_bytes()),
+                                Err(e) => Err(format!("err:{:?}", e.kind())),
+                            };
+                            let _ = tx.send(r);
+                        });
+                    }
+                });
+            });
+            let deadline = std::time::Instant::now() + std::time::Duration::from_secs(20);
+            let mut got: Vec<Result<[u8; 32], String>> = Vec::new();
+            while got.len() < jobs {
+                let left = deadline.saturating_duration_since(std::time::Instant::now());
+                match rx.recv_timeout(left) {
+                    Ok(r) => got.push(r),
+                    Err(_) => return Some(format!("HANG {}/{}", got.len(), jobs)),
+                }
+            }
+            match &got[0] {
+                Err(e) => Some(e.clone()),
+                Ok(first) => {
+                    if got.iter().all(|g| g.as_ref().ok() == Some(first)) {
+                        Some(format!("ok {}", hex(first)))
+                    } else {
+                        Some("MISMATCH between hashers of the same file".into())
+                    }
+                }
+            }
         }
         ["D", "zerohash", a] => {
             use zeroize::Zeroize;
@@ -608,13 +701,17 @@ fn step(st: &mut St, t: &[&str]) -> Option<String> {
 }
 
 #[inline(never)]
-fn zero_snap(kind: &str, len: usize, extra: usize, seed: u64) -> Option<(Vec<u8>, Vec<u8>)> {
+fn zero_snap(kind: &str, mode: &str, len: usize, extra: usize, seed: u64) -> Option<(Vec<u8>, Vec<u8>)> {
     use zeroize::Zeroize;
     fn raw<T>(h: &T) -> Vec<u8> {
         unsafe { std::slice::from_raw_parts(h as *const T as *const u8, std::mem::size_of::<T>()) }.to_vec()
     }
     let key: [u8; 32] = pat(32, seed.wrapping_mul(77)).try_into().ok()?;
-    let mut h = blake3::Hasher::new_keyed(&key);
+    let mut h = match mode {
+        "hash" => blake3::Hasher::new(),
+        "derive" => blake3::Hasher::new_derive_key(&format!("verif zeroscan context {}", seed)),
+        _ => blake3::Hasher::new_keyed(&key),
+    };
     h.update(&pat(len, seed));
     match kind {
         "h" => {
